@@ -29,7 +29,10 @@ type C16Op struct {
 type C16W struct {
 	Sessions []C16Session `json:"sessions"` // behaviour of the k-th dialled connection; beyond the list: healthy
 	Ops      []C16Op      `json:"ops"`
-	Grid     bool         `json:"grid,omitempty"`
+	// Side: Stop / Wait calls issued by a second task concurrently with the main sequence (all of
+	// them before the final healthy session).
+	Side []C16Op `json:"side,omitempty"`
+	Grid bool    `json:"grid,omitempty"`
 }
 
 const c16GridOffsets = 330
@@ -69,7 +72,13 @@ func c16Gen(rng *rand.Rand, conf string, idx int) any {
 			w.Ops = append(w.Ops, C16Op{"wait"})
 		}
 	}
+	if rng.Intn(3) == 0 {
+		for k, m := 0, 1+rng.Intn(3); k < m; k++ {
+			w.Side = append(w.Side, C16Op{pick(rng, []string{"stop", "wait", "stop"})})
+		}
+	}
 	// finally: a healthy session must work
+	w.Ops = append(w.Ops, C16Op{"join"})
 	w.Ops = append(w.Ops, opsOf("start", "settle", "request", "settle", "request", "stop", "wait")...)
 	return w
 }
@@ -224,6 +233,25 @@ func c16Exec(t *testing.T, w *C16W, sc SchedCfg, ph *c16Phases, rec *c16Phases) 
 			}
 			return h.Ends[len(h.Ends)-1]
 		}
+		sideRes := make([]*c16OpRes, len(w.Side))
+		sideDone := len(w.Side) == 0
+		if len(w.Side) > 0 {
+			e.Task("side", func() {
+				for i, op := range w.Side {
+					r := &c16OpRes{Op: op.Op}
+					sideRes[i] = r
+					switch op.Op {
+					case "stop":
+						st.Stop()
+					case "wait":
+						st.Wait()
+					}
+					r.Done = true
+				}
+				sideDone = true
+			})
+			e.S.Probe("C16.concurrent-stop-or-wait")
+		}
 		e.Task("caller", func() {
 			for i, op := range w.Ops {
 				r := &c16OpRes{Op: op.Op, Session: h.Dials}
@@ -251,6 +279,12 @@ func c16Exec(t *testing.T, w *C16W, sc SchedCfg, ph *c16Phases, rec *c16Phases) 
 						end.Close()
 						e.S.Probe("C16.fault.lose")
 					}
+					started = false
+				case "join":
+					// the concurrent Stop/Wait calls must all have returned before the final session
+					e.S.ParkOwned("join:side", "caller", func() bool { return sideDone })
+					st.Stop() // whatever the side task left behind
+					e.S.Settle("caller")
 					started = false
 				case "settle":
 					e.S.Settle("caller")
@@ -300,6 +334,12 @@ func c16Exec(t *testing.T, w *C16W, sc SchedCfg, ph *c16Phases, rec *c16Phases) 
 				return s.Kind, s.Kind
 			}
 			return "healthy", "healthy"
+		}
+		for i, r := range sideRes {
+			if r == nil || !r.Done {
+				res.Violate("C16."+w.Side[i].Op+"-returns", "%s issued by a second task concurrently with %v did not return (%v)", w.Side[i].Op, opNames(w.Ops), rerr)
+				return
+			}
 		}
 		lastStart := -1
 		for i, r := range results {
@@ -411,6 +451,11 @@ func c16Shrink(wl any) []any {
 			c.Sessions[i] = C16Session{Kind: "healthy"}
 			out = append(out, c)
 		}
+	}
+	for i := range w.Side {
+		c := jsonClone(w)
+		c.Side = append(c.Side[:i], c.Side[i+1:]...)
+		out = append(out, c)
 	}
 	return out
 }
